@@ -14,7 +14,10 @@ def save_world(sb):
         for dn in dns: saved[os.path.join(dp, dn)] = None
         for fn in fns:
             p = os.path.join(dp, fn)
-            saved[p] = open(p, 'rb').read()
+            saved[p] = ('link', os.readlink(p)) if os.path.islink(p) else open(p, 'rb').read()
+        for dn in list(dns):
+            p = os.path.join(dp, dn)
+            if os.path.islink(p): saved[p] = ('link', os.readlink(p)); dns.remove(dn)
     return saved
 
 def restore_world(sb, saved):
@@ -25,7 +28,12 @@ def restore_world(sb, saved):
     for p in sorted(saved):
         if saved[p] is None: os.makedirs(p, exist_ok=True)
     for p, b in saved.items():
-        if b is not None:
+        if isinstance(b, tuple):
+            os.makedirs(os.path.dirname(p), exist_ok=True)
+            if os.path.lexists(p): os.rmdir(p) if os.path.isdir(p) and not os.path.islink(p) else os.remove(p)
+            os.symlink(b[1], p)
+    for p, b in saved.items():
+        if b is not None and not isinstance(b, tuple):
             os.makedirs(os.path.dirname(p), exist_ok=True)
             with open(p, 'wb') as f: f.write(b)
 
